@@ -14,6 +14,7 @@ vspec entries:
     @@ breakvalue <alias> <fn key> <'label> <type>     R2
     @@ dropcontinue <alias> <fn key> <#n|'label>       R3
     @@ labelblock <alias> <fn key> <'label>            R9
+    @@ forbytes <alias> <fn key> <#n|'label>           R12
     @@ unmutparam <alias> <fn key> <param names..>      R11
     @@ closure <alias> <fn key> <param tokens..>        R10 (params:/ret:/spec:)
     @@ retoken <alias> <kind> <name>   (from:/to:/rule:/note: sections; tokens space separated)
@@ -96,9 +97,13 @@ class Unit:
                 alias, key, which = h[1], h[2], h[3]
                 rsx.r3_drop_tail_continue(self.sources[alias], self.edits[alias], self._fn(alias, key), which)
                 e.used = True
+            elif h[0] == "forbytes":
+                alias, key, which = h[1], h[2], h[3]
+                rsx.r12_for_bytes_enumerate(self.sources[alias], self.edits[alias], self._fn(alias, key), which)
+                e.used = True
             elif h[0] == "labelblock":
                 alias, key, label = h[1], h[2], h[3]
-                rsx.r9_label_block(self.sources[alias], self.edits[alias], self._fn(alias, key), label)
+                rsx.r9_label_block(self.sources[alias], self.edits[alias], self._fn(alias, key), label, e)
                 e.used = True
             elif h[0] == "unmutparam":
                 alias, key = h[1], h[2]
